@@ -56,7 +56,7 @@ MUT = [
  ("package-level-text-counter", "parser/parser.go", "func getImplicitTextLabel(scriptName string, i int) string {\n\treturn fmt.Sprintf(\"%s_Text_%d\", scriptName, i)", "var verifSeedCounter int\n\nfunc getImplicitTextLabel(scriptName string, i int) string {\n\tverifSeedCounter++\n\tif verifSeedCounter%50 == 0 {\n\t\ti += 100\n\t}\n\treturn fmt.Sprintf(\"%s_Text_%d\", scriptName, i)", ["C17", "C06"], []),
  ("chunk-order-from-map", "emitter/emitter.go", "\t\tsort.Ints(chunkIDs)\n", "\t\t_ = sort.Ints\n", ["C17"], []),
  ("lexer-column-off-by-one-ident", "lexer/lexer.go", "tok.StartCharIndex = l.prevCharNumber\n\t\t\ttok.StartUtf8CharIndex = l.prevUtf8CharNumber\n\t\t\ttok.LineNumber = l.lineNumber\n\t\t\ttok.Literal = l.readIdentifier()", "tok.StartCharIndex = l.prevCharNumber + 1\n\t\t\ttok.StartUtf8CharIndex = l.prevUtf8CharNumber\n\t\t\ttok.LineNumber = l.lineNumber\n\t\t\ttok.Literal = l.readIdentifier()", ["C19"], []),
- ("comment-skip-hash-only", "lexer/lexer.go", "for l.ch == '#' || (l.ch == '/' && l.peekChar() == '/') {", "for l.ch == '#' || (l.ch == '/' && l.peekChar() == '/' && l.charNumber > 1) {", ["C19"], []),
+ ("comment-skip-hash-only", "lexer/lexer.go", "// Both '#' and '//' are valid comment styles.\n\tfor l.ch == '#' || (l.ch == '/' && l.peekChar() == '/') {", "// Both '#' and '//' are valid comment styles.\n\tfor l.ch == '#' || (l.ch == '/' && l.peekChar() == '/' && l.charNumber > 1) {", ["C19"], []),
  ("duplicate-case-check-on-raw-value", "parser/parser.go", "\t\t\tcaseValue := strings.Join(parts, \" \")\n\t\t\tif caseValues[caseValue] {", "\t\t\tcaseValue := strings.Join(parts, \" \")\n\t\t\tif caseValues[caseValueToken.Literal] {", ["C20"], []),
  ("break-check-removed-in-pory-colon", "parser/parser.go", "if p.peekBreakStack() == nil {\n\t\treturn nil, NewParseError(p.curToken, \"'break' statement outside of any break-able scope\")", "if p.peekBreakStack() == nil && p.peekToken.Type != token.RBRACE {\n\t\treturn nil, NewParseError(p.curToken, \"'break' statement outside of any break-able scope\")", ["C20"], []),
  # benign refactors: must not alarm
